@@ -1026,7 +1026,17 @@ namespace detail {
                         {
                             options |= std::regex_constants::icase;
                         }
-                        std::basic_regex<char_type> pattern(buffer, options);
+                        std::basic_regex<char_type> pattern;
+                        JSONCONS_TRY
+                        {
+                            pattern.assign(buffer, options);
+                        }
+                        JSONCONS_CATCH(const std::regex_error&)
+                        {
+                            // an ill-formed pattern is a syntax error of the expression, not a foreign exception
+                            ec = jsonpath_errc::syntax_error;
+                            return path_expression_type(alloc_);
+                        }
                         push_token(resources, resources.get_regex_operator(std::move(pattern)), ec);
                         if (JSONCONS_UNLIKELY(ec)) {return path_expression_type(alloc_);}
                         buffer.clear();
